@@ -23,3 +23,13 @@ pub fn machine_and_table(
     let table = machine_to_table(&machine, &validated);
     Ok((validated, machine, table))
 }
+
+/// The FIRST map (nonterminal, terminals, nullable) computed for `src`.
+pub fn first_sets(src: &str) -> Result<Vec<(String, Vec<String>, bool)>, KikiErr> {
+    let tokens = tokenize(src)?;
+    let cst = parse(tokens)
+        .map_err(|unexpected| unexpected_token_or_eof_to_kiki_err(unexpected.as_ref(), src))?;
+    let ast: crate::data::ast::File = cst.into();
+    let validated = validate_ast(ast)?;
+    Ok(crate::pipeline::validated_ast_to_machine::verif_first_sets(&validated))
+}
